@@ -724,6 +724,9 @@ func TestVerifC27(t *testing.T) {
 	for done < n && tries < 50*n {
 		tries++
 		p := vfC27Gen(r, 1+r.Intn(4))
+		if r.Chance(15) {
+			p = r.Pick([]string{"(?i)", "(?i)", "(?U)", "(?is)", "(?i-m)"}) + p // whole-pattern flags: folded literals/classes, lazy repeats
+		}
 		if len(p) > 120 || seen[p] {
 			continue
 		}
